@@ -5,9 +5,13 @@ FlushScen.tla (environment model: application-level histories), SyncedPoolTrace.
 
 1. TLC model-checks CrashConsistent on both protocols (and shows that the invariant is not vacuous: with the
    pre-repair order DropsFirst / MarkOthers=FALSE it finds the F11 schedule).
-2. TLC enumerates the application-level histories (FlushScen.tla).
+2. TLC explores the complete graph of abstract application states of FlushScen.tla (per database: open/queued/closed,
+   on disk, durable contents, overlay incl. large values that split a flush into several write batches, dirty flag,
+   contents at the last flush) and emits every transition with the path to its pre-state: history = path + call.
+   Every class of pre-state (cls) is run in every tier; a tier that cannot run all transitions takes a seeded
+   sample *inside* each class, never across classes.
 3. The harness runs every history on the real flushable.SyncedPool / flaggedproducer over a disk-image
-   backend, once without a crash and once per durable operation k with the process stopped at operation k,
+   backend, once without a crash and once per durable operation k of its last call with the process stopped at operation k,
    restarts a fresh pool/producer from the surviving image and calls Initialize over the surviving names.
 4. Every run is one trace; the trace specifications apply the recorded durable operations, require the
    recorded surviving state to be the specification's durable state, and decide whether the recorded verdict is
@@ -35,10 +39,10 @@ def model_check(c):
     def one(name):
         mod, cfg, must_pass = jobs[name]
         if must_pass:
-            return c.tlc_must_pass("kvp", mod, cfg=cfg, workers=c.pick(2, 3), timeout=c.pick(900, 3000))
+            return c.tlc_must_pass("kvp", mod, cfg=cfg, workers=c.pick(1, 3), timeout=c.pick(900, 3000))
         return c.tlc("kvp", mod, cfg=cfg, workers=1, timeout=900, count=False)
 
-    with ThreadPoolExecutor(max_workers=c.pick(4, 2)) as ex:
+    with ThreadPoolExecutor(max_workers=2) as ex:
         futs = {n: ex.submit(one, n) for n in jobs}
         for n, f in futs.items():
             out[n] = f.result()
@@ -75,7 +79,8 @@ def split_runs(path, chunk_lines):
     with open(path) as f:
         for line in f:
             n += 1
-            if line.startswith('{"comp"') and '"op":"reset"' in line and len(cur) >= chunk_lines:
+            # cut only in front of the run without a crash of a history: its crash runs need its reference contents
+            if line.startswith('{"comp"') and '"crash":0,"op":"reset"' in line and len(cur) >= chunk_lines:
                 pieces.append((start, cur))
                 cur = []
                 start = n
@@ -137,34 +142,44 @@ def run_lines(path, scen, crash):
 
 
 def run(c):
-    with ThreadPoolExecutor(max_workers=2) as ex:
-        fmc = ex.submit(model_check, c)
+    # the protocol model checking does not gate anything: it runs beside the enumeration / crash runs / validation
+    bg = ThreadPoolExecutor(max_workers=1)
+    fmc = bg.submit(model_check, c)
+    with ThreadPoolExecutor(max_workers=1) as ex:
         fen = ex.submit(enumerate_histories, c)
         c.harness()
         files = fen.result()
-        mc = fmc.result()
-    c.log("protocol model checking: pool %d states, flagged %d states; pre-repair orders violate CrashConsistent in the model" % (
-        mc["pool"].distinct, mc["flagged"].distinct))
-    c.guard("model_prerepair_pool_violates", 1)
-    c.guard("model_prerepair_flagged_violates", 1)
 
     rnd = random.Random(c.seed)
     scen_path = c.path("scenarios.ndjson")
     scenarios = []
     enumerated = {}
+    per_class = c.pick(dict(pool=2, flagged=1), dict(pool=30, flagged=20))
     for comp in ("pool", "flagged"):
         path, n, cfg = files[comp]
+        groups = {}
+        total = 0
         with open(path) as f:
-            lines = [l for l in f if l.strip()]
-        enumerated[comp] = dict(cfg=cfg, histories=len(lines))
-        limit = c.pick(dict(pool=400, flagged=600), dict(pool=5000, flagged=5000))[comp]
-        if len(lines) > limit:
-            lines = rnd.sample(lines, limit)
-            enumerated[comp]["sampled"] = limit
-        scenarios += lines
+            for l in f:
+                if not l.strip():
+                    continue
+                total += 1
+                e = json.loads(l)
+                op = e["ops"][-1]
+                # flagged producer: every call is durable, so the class is (pre-state without the flush counter, call)
+                key = (e["cls"],) if comp == "pool" else (e["cls"].rsplit("f", 1)[0], op["op"], op.get("db"), op.get("v"))
+                groups.setdefault(key, []).append(l)
+        picked = []
+        for key in sorted(groups, key=lambda k: tuple(str(x) for x in k)):
+            g = groups[key]
+            picked += g if len(g) <= per_class[comp] else rnd.sample(g, per_class[comp])
+        enumerated[comp] = dict(cfg=cfg, transitions=total, classes=len(groups), run=len(picked), per_class=per_class[comp])
+        scenarios += picked
     with open(scen_path, "w") as f:
         f.writelines(scenarios)
     c.log("histories enumerated by TLC:", enumerated)
+    c.guard("pool_classes", enumerated["pool"]["classes"])
+    c.guard("flagged_classes", enumerated["flagged"]["classes"])
 
     traces = {"pool": c.path("pool_trace.ndjson"), "flagged": c.path("flagged_trace.ndjson")}
     stats = json.loads(c.vh(["crashrun", scen_path, traces["pool"], traces["flagged"]], timeout=3000).stdout)
@@ -174,6 +189,20 @@ def run(c):
                   "crash_after_dirty", "crash_after_clean", "crash_after_create"):
             c.guard(comp + "_" + g, stats.get(comp + "_" + g, 0))
     c.guard("flagged_verdict_unsynced", stats.get("flagged_verdict_unsynced", 0))
+    c.guard("pool_histories_with_large_values", stats.get("pool_histories_with_large_values", 0))
+    # flushes of one database that were split into several non-empty write batches (large values)
+    split = 0
+    with open(traces["pool"]) as f:
+        seen_data = {}
+        for line in f:
+            if '"op":"flush"' in line or '"op":"reset"' in line:
+                seen_data = {}
+            elif '"op":"data"' in line and '"w":{}' not in line:
+                o = json.loads(line)
+                seen_data[o["db"]] = seen_data.get(o["db"], 0) + 1
+                if seen_data[o["db"]] == 2:
+                    split += 1
+    c.guard("pool_flushes_split_into_several_batches", split)
 
     # distinct non-trivial runs: different recorded operation sequence / surviving state, at least one durable operation survived
     distinct = set()
@@ -217,6 +246,12 @@ def run(c):
         if nonconf and not bad:
             c.notes.append("%s: %d runs performed durable operations outside the order of the specification's protocol, yet every "
                            "restart was crash consistent" % (comp, nonconf))
+    mc = fmc.result()
+    bg.shutdown()
+    c.log("protocol model checking: pool %d states, flagged %d states; pre-repair orders violate CrashConsistent in the model" % (
+        mc["pool"].distinct, mc["flagged"].distinct))
+    c.guard("model_prerepair_pool_violates", 1)
+    c.guard("model_prerepair_flagged_violates", 1)
     with open(traces["pool"]) as f:
         sample = [json.loads(l) for _, l in zip(range(45), f)]
     runs = stats.get("pool_runs", 0) + stats.get("flagged_runs", 0)
@@ -227,10 +262,11 @@ def run(c):
         states=c.tlc_states, transitions=c.tlc_transitions,
         traces_validated_against_impl=runs,
         trace_lines_validated=results["pool"]["trace_lines"] + results["flagged"]["trace_lines"],
-        rule="histories = complete scenarios of FlushScen.tla (%s); for each history every prefix of its durable operation sequence "
-             "(database creation, mark put, write batch / put / delete, drop) is a crash point: the run is repeated with the process "
-             "stopped at that operation; non-trivial and distinct = at least one durable operation survived and the recorded "
-             "operation sequence + surviving state differ from every other run" % json.dumps(enumerated),
+        rule="histories = transitions of the complete abstract state graph of FlushScen.tla with the path to their pre-state (%s); every "
+             "class of pre-state is run, sampled (seeded) only inside a class; for each history every prefix of the durable operation "
+             "sequence of its last call (database creation, mark put, write batch / put / delete, drop) is a crash point: the run is "
+             "repeated with the process stopped at that operation; non-trivial and distinct = at least one durable operation survived "
+             "and the recorded operation sequence + surviving state differ from every other run" % json.dumps(enumerated),
         enumerated=enumerated, harness_stats=stats, validation=results,
         protocol_model_checking={k: dict(states=v.distinct, transitions=v.generated, invariant_violated=v.invariant_violated)
                                  for k, v in mc.items()},
@@ -238,6 +274,7 @@ def run(c):
     ), assumptions=[
         "a write batch is atomic (as LevelDB/Pebble batches are); a crash stops the process before a durable operation, never inside one",
         "restart = fresh store objects built from the persisted image, fresh pool/producer, Initialize(surviving names, nil)",
-        "databases absent at a flush count as empty; the contents of flush n are the contents when its last durable operation was done",
+        "databases absent at a flush count as empty; the contents of flush n are the contents when Flush(n) returned in the run of the same history without a crash",
+        "the crash points of the calls before the last call of a history are covered by the histories ending in those calls (same abstract state)",
         "which of several applicable error verdicts (dirty / unsynced / noninit) Initialize reports is left open",
         "TLC/SANY/Json module trusted; Go projection = raw surviving image + Initialize result"])
